@@ -122,11 +122,16 @@ end
 section
 variable {K : Type} [Add K] [Mul K] [Sub K] [Neg K] [Zero K] [One K] [Div K]
 
-/-- what it means that the 4×4 matrix `M` with block `σ·Q` (`σ` the scale) maps the pose `p`
-onto `q`: position `q.t = M.rot·p.t + M.t` (homogeneous action), orientation
-`q.rot = (1/σ)·M.rot·p.rot` (the rotation part of `M`). -/
-def mapsPose (M : Pose K) (σ : K) (p q : Pose K) : Prop :=
-  q.t = V3.add (M3.mulVec M.rot p.t) M.t ∧ q.rot = M3.mul (M3.smul (1 / σ) M.rot) p.rot
+/-- image of the pose `p` under the 4×4 matrix `M` whose block is `σ·Q` (`σ` the scale, `Q` a
+rotation): position `M.rot·p.t + M.t` (homogeneous action on the position), orientation
+`(1/σ)·M.rot·p.rot` (the rotation part of `M` applied from the left). "`M` maps the unaligned
+estimate onto the stored one" means `stored = unaligned.map (moveBy M σ)`. -/
+def moveBy (M : Pose K) (σ : K) (p : Pose K) : Pose K :=
+  ⟨M3.mul (M3.smul (1 / σ) M.rot) p.rot, V3.add (M3.mulVec M.rot p.t) M.t⟩
+
+/-- sum of squared position differences `Σ‖b_i − a_i‖²` (n·RMSE² of the translation error) -/
+def sse (a b : List (V3 K)) : K :=
+  Ume.sumMap (fun p : V3 K × V3 K => V3.normSq (V3.sub p.2 p.1)) (a.zip b)
 
 end
 
